@@ -59,6 +59,10 @@ TObs ==
          want == intended[t.s]
      IN IF t.panic # "" THEN Emit(<<[prop |-> "C16", kind |-> "panic", id |-> episode, line |-> l,
                      detail |-> [schema |-> t.s, mode |-> t.mode, after |-> lastop, panic |-> t.panic]]>>)
+        \* the base's own c field (id 3) is a struct with a member no replacement has: it is visited iff c still is that field
+        ELSE IF ("cold" \in DOMAIN t.fields) # (want.fields["c"] = 3)
+        THEN Emit(<<[prop |-> "C16", kind |-> "nested-field-not-replaced", id |-> episode, line |-> l,
+                     detail |-> [schema |-> t.s, mode |-> t.mode, after |-> lastop, visited_old_member |-> "cold" \in DOMAIN t.fields, c_field |-> want.fields["c"]]]>>)
         ELSE IF got = want THEN TRUE
         ELSE Emit(<<[prop |-> "C16", kind |-> "schema-differs-from-hand-written", id |-> episode, line |-> l,
                      detail |-> [schema |-> t.s, mode |-> t.mode, after |-> lastop, got |-> got, want |-> want]]>>)
